@@ -124,6 +124,7 @@ type c30waiter struct {
 	inCall   bool
 	blocking bool // in a Wait with cancel mode "none"
 	prev     uint64
+	callTick int64
 	seq      int
 	done     bool
 	cancel   context.CancelFunc
@@ -212,13 +213,18 @@ func (h *c30hist) doWait(client int, rng *rand.Rand, st c30step, last *uint64, w
 			cancel()
 			return
 		}
-		w.inCall, w.blocking, w.prev = true, st.Cancel == "none", prev
+		w.inCall, w.blocking, w.prev, w.callTick = true, st.Cancel == "none", prev, 0
 		w.seq++
 		w.cancel, w.cancelAt = cancel, cancelAt
 		w.mu.Unlock()
 	}
 	op := c30op{Client: client, Kind: "wait", Prev: prev, PrevKind: st.PrevKind, Cancel: st.Cancel}
 	op.Call = h.tick()
+	if w != nil {
+		w.mu.Lock()
+		w.callTick = op.Call
+		w.mu.Unlock()
+	}
 	idx, err := h.tracker.WaitForChange(ctx, prev)
 	op.Ret = h.tick()
 	if w != nil {
@@ -336,10 +342,11 @@ var c30model = porcupine.Model{
 }
 
 type c30result struct {
-	sig        string
-	blocked    int
-	overlapped bool
-	hang       bool
+	sig          string
+	blocked      int
+	blockedFresh int
+	overlapped   bool
+	hang         bool
 }
 
 var c30health *health
@@ -401,6 +408,7 @@ func runC30(r *vk.Run, sc c30script) (res c30result) {
 	}
 
 	// Quiescence: nobody changes the state any more. Read the final index.
+	quiesceTick := h.tick()
 	coord := len(sc.Mutators) + len(sc.Waiters)
 	var finalIdx uint64
 	var finalErr string
@@ -445,12 +453,20 @@ func runC30(r *vk.Run, sc c30script) (res c30result) {
 		res.hang = true
 		return
 	}
-	// Waiters with prev == final index stay blocked until cancelled.
+	// A Wait with prev == final index that was invoked after quiescence stays
+	// blocked until cancelled. (A Wait invoked before the last change may
+	// still be about to return an older index it legitimately saw; whether
+	// its result is legal is decided by the model check below.)
 	seqs := make([]int, len(waiters))
+	fresh := make([]bool, len(waiters))
 	for i, w := range waiters {
 		w.mu.Lock()
 		if !w.done {
 			res.blocked++
+			fresh[i] = w.callTick > quiesceTick
+			if fresh[i] {
+				res.blockedFresh++
+			}
 		}
 		seqs[i] = w.seq
 		w.mu.Unlock()
@@ -459,10 +475,10 @@ func runC30(r *vk.Run, sc c30script) (res c30result) {
 		time.Sleep(200 * time.Microsecond)
 		for i, w := range waiters {
 			w.mu.Lock()
-			moved := !w.done && w.seq != seqs[i]
+			moved := fresh[i] && w.seq != seqs[i]
 			w.mu.Unlock()
 			if moved {
-				violate("returned-without-change", fmt.Sprintf("waiter %d blocked in WaitForChange(prev=%d) returned although the index stayed %d and nothing was cancelled", i, finalIdx, finalIdx))
+				violate("returned-without-change", fmt.Sprintf("waiter %d called WaitForChange(prev=%d) after the last state change and returned although the index stayed %d and nothing was cancelled", i, finalIdx, finalIdx))
 			}
 		}
 	}
@@ -601,7 +617,7 @@ func runC30(r *vk.Run, sc c30script) (res c30result) {
 			if out == "" {
 				out = "index"
 			}
-			c = "wait/" + op.PrevKind + "/" + op.Cancel + "/" + out
+			c = "wait/" + op.PrevKind + "/" + out
 		}
 		classes[c] = true
 	}
@@ -631,7 +647,7 @@ func runC30(r *vk.Run, sc c30script) (res c30result) {
 func c30() {
 	r := vk.Start("C30", "exploration")
 	c30health = startHealth()
-	n := r.Pick(4000, 150000)
+	n := r.Pick(10000, 300000)
 	procsCycle := []int{16, 4, 2, 16}
 	batch := (n + len(procsCycle) - 1) / len(procsCycle)
 	defaultProcs := runtime.GOMAXPROCS(0)
@@ -679,6 +695,7 @@ func c30() {
 					if res.blocked > 0 {
 						r.Count("histories_with_waiters_blocked_at_quiescence", 1)
 						r.Count("waiters_blocked_until_cancelled", int64(res.blocked))
+						r.Count("waiters_blocked_in_calls_made_after_quiescence", int64(res.blockedFresh))
 					}
 					if res.overlapped {
 						r.Count("histories_with_wait_overlapping_a_change", 1)
@@ -695,5 +712,5 @@ func c30() {
 	r.Note("heartbeat_max_gap_ms", c30health.maxGap.Load()/1e6)
 	r.Assume("histories are recorded at the client boundary with a logical clock; the sequential specification is the documented contract of Tracker.WaitForChange/NotifyOfChange/Terminate (initial index 1; notifications after termination do not advance the index)")
 	r.Assume("bounded progress replaces 'eventually': a blocked call counts as a violation only after 12 s with a healthy heartbeat (max gap < 1 s)")
-	r.Finish("seeded random concurrent histories (2..8 goroutines, <= 40 model operations) mixing NotifyOfChange, TrackingLock.Lock/Unlock, WaitForChange with prev in {0, stale, current, future}, timed/pre/at-quiescence cancellation and Terminate, under GOMAXPROCS 16/4/2; a history is non-trivial if it completed all phases; distinct = distinct sets of (operation, prev kind, cancel kind, outcome) classes x waiters blocked at quiescence x whether a wait overlapped a change", 20)
+	r.Finish("seeded random concurrent histories (2..8 goroutines, <= 40 model operations) mixing NotifyOfChange, TrackingLock.Lock/Unlock, WaitForChange with prev in {0, stale, current, future}, timed/pre/at-quiescence cancellation and Terminate, under GOMAXPROCS 16/4/2; a history is non-trivial if it completed all phases; distinct = distinct sets of (operation, prev kind, outcome) classes x waiters blocked at quiescence x whether a wait overlapped a change", 20)
 }
